@@ -35,7 +35,12 @@ Ill(e, v, t, d) ==
 Order == <<"other", "reserved_at_opt", "under_opt", "surplus_field", "missing_optional_field">>
 RECURSIVE Join(_, _)
 Join(S, i) == IF i > Len(Order) THEN "" ELSE (IF Order[i] \in S THEN Order[i] \o "+" ELSE "") \o Join(S, i + 1)
+\* argument lists of another length than the type list: whatever the answer, it is an answer
+Arity(r) == /\ (IF "panic" \in DOMAIN r.ann_more THEN Bad("annotate:panic_more_values_than_types@" \o r.ann_more.panic) ELSE TRUE)
+            /\ (IF "panic" \in DOMAIN r.ann_fewer THEN Bad("annotate:panic_fewer_values_than_types@" \o r.ann_fewer.panic) ELSE TRUE)
+            /\ (IF "panic" \in DOMAIN r.enc_more THEN Bad("encode:panic_more_values_than_types@" \o r.enc_more.panic) ELSE TRUE)
 ValCase(r) ==
+  Arity(r) /\
   LET why == UNION {Ill(r.env, r.vals[i], r.types[i], D) : i \in DOMAIN r.types}
       typed == why = {}
       want == [i \in DOMAIN r.types |-> NormAt(r.env, r.vals[i], r.types[i])]
